@@ -47,7 +47,7 @@ STUBBED = ["socket/select/time/pinger (simkit)", "switch peer (scripted)"]
 EXPECT_PROBES = ["ps_add", "ps_modify", "ps_delete", "ps_readd", "ps_rename",
                  "ps_rehw", "ps_delete_unknown", "stats_multipart_done",
                  "stats_abandoned", "stats_interleaved", "stats_single",
-                 "glued_to_handshake_end"]
+                 "glued_to_handshake_end", "stats_part_64k"]
 
 MULTI = {W.ST_FLOW: "FlowStatsReceived", W.ST_TABLE: "TableStatsReceived",
          W.ST_PORT: "PortStatsReceived", W.ST_QUEUE: "QueueStatsReceived"}
@@ -129,6 +129,23 @@ def gen_plan(seed, tier):
       steps.append({"op": "settle"})
     if r.chance(0.03):
       steps.append({"op": "lose"})
+  r7 = Rng(mix(seed, "big"))
+  if r7.chance(0.03):
+    # a table dump: one flow-stats reply of 17-20 nearly full (64 KB) parts,
+    # well over a megabyte before its last part arrives
+    nparts = r7.randint(17, 20)
+    per = r7.pick([650, 680])
+    big = [{"op": "stats", "xid": 0xb16, "stype": W.ST_FLOW,
+            "more": k < nparts - 1, "tagrange": [100000 + k * per, per]}
+           for k in range(nparts)]
+    at = r7.randint(0, len(steps))
+    # (not inside another reply's parts: that is the listed finding)
+    while at < len(steps) and steps[at].get("op") == "stats":
+      at += 1
+    steps[at:at] = big
+    cfg["big_reply"] = True
+    if cfg["recv_mode"] == "dribble":
+      cfg["recv_mode"] = "choose"
   return {"prop": PROP, "seed": seed, "cfg": cfg, "steps": steps}
 
 
@@ -363,6 +380,10 @@ def _drive(sim, plan, known, hit):
   for i, st in enumerate(plan["steps"]):
     sim.ch.reseed(mix(plan["seed"], "step", i))
     op = st["op"]
+    if "tagrange" in st:
+      st = dict(st, tags=list(range(st["tagrange"][0],
+                                    st["tagrange"][0] + st["tagrange"][1])))
+      sim.probes["stats_part_64k"] += 1
     if lost:
       break
     if cork[0] is not None and (i >= glue or op in ("lose", "settle")
